@@ -66,6 +66,11 @@ def boolGrid (x : Option (PV α)) : List (List Bool) :=
       | _ => []
   | _ => []
 
+/-- `len(x)` of a list (0 for anything else) -/
+def pvLen : PV α → Nat
+  | .list l => l.length
+  | _ => 0
+
 /-- `np.array(z).shape` as far as `_check_interp` reads it: `none` = 0-d (not a list), `some (n, none)` = 1-d
     (`[]` or a flat list), `some (n, some m)` = `n` rows of equal length `m`; ragged or mixed nesting is
     numpy's "inhomogeneous shape" `ValueError`. -/
@@ -74,8 +79,7 @@ def tableShape (zz : PV α) : Except Err (Option (Nat × Option Nat)) :=
   | .list [] => pure (some (0, none))
   | .list (r :: rs) =>
     if (r :: rs).all PV.isList then
-      let len : PV α → Nat := fun x => match x with | .list l => l.length | _ => 0
-      if rs.all (fun x => len x == len r) then pure (some (rs.length + 1, some (len r)))
+      if rs.all (fun x => pvLen x == pvLen r) then pure (some (rs.length + 1, some (pvLen r)))
       else throw (.value "inhomogeneous shape")
     else if (r :: rs).any PV.isList then throw (.value "inhomogeneous shape")
     else pure (some (rs.length + 1, none))
@@ -85,19 +89,28 @@ def tableShape (zz : PV α) : Except Err (Option (Nat × Option Nat)) :=
     0-d / 1-d data), then the numeric rows of the table -/
 def tableRows (vi zz : PV α) (nio : Nat) (z : String) : Except Err (List (List α)) := do
   let zsh ← tableShape zz
-  let nvi ← match vi with | .list l => pure l.length | _ => throw (.other "IndexError")
-  let (n, m?) ← match zsh with | some sh => pure sh | none => throw (.other "IndexError")
-  if nvi != n then throw (.value "dimensions of interpolation data do not match")
-  let m ← match m? with | some m => pure m | none => throw (.other "IndexError")
-  if nio != m then throw (.value "dimensions of interpolation data do not match")
-  match zz with
-  | .list rs => rs.mapM (numList z)
-  | _ => throw (.other "IndexError")
+  match vi, zsh with
+  | .list lv, some (n, some m) =>
+    if lv.length != n then throw (.value "dimensions of interpolation data do not match")
+    else if nio != m then throw (.value "dimensions of interpolation data do not match")
+    else match zz with
+      | .list rs => rs.mapM (numList z)
+      | _ => throw (.other "IndexError")
+  | .list lv, some (n, none) =>
+    if lv.length != n then throw (.value "dimensions of interpolation data do not match")
+    else throw (.other "IndexError")
+  | _, _ => throw (.other "IndexError")
 
 /-- all grid points on one line: Qhull cannot triangulate (`QhullError`, a `RuntimeError`) -/
 def allSame : List α → Bool
   | [] => true
   | x :: xs => xs.all fun y => eqB (nabs y) (nabs x)
+
+/-- `np.all(np.diff(idata["io"]) > 0)` needs a sequence of numbers -/
+def ioAxis (io : PV α) : Except Err (List α) :=
+  match io with
+  | .list l => l.mapM (numArg "io")
+  | _ => throw (.value "diff requires input that is at least one dimensional")
 
 /-- `_check_interp(idata, z)`, the range check `chk` the caller applies to the table values, then the
     choice and construction of `_Interp1d` / `_Interp2d`; also returns the flat list of table values.
@@ -106,18 +119,17 @@ def mkTable (d : List (String × PV α)) (z : String)
     (chk : List α → Except Err Unit := fun _ => pure ()) : Except Err (Param α × List α) := do
   match d.lookup "vi", d.lookup "io", d.lookup z with
   | some vi, some io, some zz =>
-    let ios ← match io with
-      | .list l => l.mapM (numArg "io")
-      | _ => throw (.value "diff requires input that is at least one dimensional")
+    let ios ← ioAxis io
     if !(strictlyIncreasing ios) then throw (.value "io values must be monotonic increasing")
-    let rows ← tableRows vi zz ios.length z
-    chk rows.flatten
-    if rows.length == 1 then pure (.tab1 ios (rows.headD []), rows.flatten)
-    else
-      let vis ← numList "vi" vi
-      if ios.isEmpty then throw (.value "min() arg is an empty sequence")
-      if allSame ios || allSame vis then throw (.runtime "QhullError")
-      pure (.tab2 ios vis rows (boolGrid (d.lookup "__diag")), rows.flatten)
+    else do
+      let rows ← tableRows vi zz ios.length z
+      chk rows.flatten
+      if rows.length == 1 then pure (.tab1 ios (rows.headD []), rows.flatten)
+      else do
+        let vis ← numList "vi" vi
+        if ios.isEmpty then throw (.value "min() arg is an empty sequence")
+        else if allSame ios || allSame vis then throw (.runtime "QhullError")
+        else pure (.tab2 ios vis rows (boolGrid (d.lookup "__diag")), rows.flatten)
   | _, _, _ => throw (.value ("interpolation data must contain vi, io and " ++ z))
 
 def listMin : List α → Option α
@@ -155,78 +167,143 @@ def stripDiag (x : PV α) : PV α :=
   | .dict d => .dict (d.filter fun kv => kv.1 != "__diag")
   | y => y
 
+/-- a mandatory keyword argument -/
+def req (a : Args α) (k : String) : Except Err (PV α) :=
+  match a.lookup k with
+  | some x => pure x
+  | none => throw (.type ("missing " ++ k))
+
+/-- Python truthiness of the `loss` flag -/
+def truthy (x : PV α) : Bool :=
+  match x with
+  | .bool b => b
+  | y => (y.num?.map fun v => !isZ v).getD true
+
+/-- `x != 0.0` for an argument that may be a number, a dict, or anything else -/
+def nonZeroArg (x : PV α) : Bool :=
+  match x with
+  | .dict _ => true
+  | y => (y.num?.map fun v => !isZ v).getD true
+
+/-- `vdrop` argument of VLoss / diode Rectifier: the interpolator and the value stored in `_params` -/
+def mkVdrop (vd : PV α) : Except Err (Param α × PV α) :=
+  match vd with
+  | .dict d => do
+    let (p, _) ← mkTable d "vdrop"
+    pure (p, stripDiag vd)
+  | x => do
+    let v ← absArg "vdrop" x
+    pure (Param.const v, PV.float v)
+
+/-- `eff` argument of a Converter: table with entries in (0, 1], or a constant in (0, 1] -/
+def mkEff (eff : PV α) : Except Err (Param α) :=
+  match eff with
+  | .dict d => do
+    let (p, _) ← mkTable d "eff" chkEff
+    pure p
+  | x => do
+    let e ← numArg "eff" x
+    if !(0 < e) then throw (.value "Efficiency must be > 0.0")
+    else if 1 < e then throw (.value "Efficiency must be <= 1.0")
+    else pure (Param.const e)
+
+/-- PMux `rs`: `if not list: _params["rs"] = abs(rs)  elif not all numbers: raise`, then
+    `_params["rs"] = rs` — the stored scalar is the RAW argument (the `abs` is overwritten) -/
+def mkRsMux (rsA : PV α) : Except Err (α × Option (List α)) :=
+  match rsA with
+  | .list l =>
+    if l.all PV.isNumber then pure ((0 : α), some (l.filterMap PV.num?))
+    else throw (.value "rs values must be numbers!")
+  | x => do
+    let _ ← absArg "rs" x
+    let v ← numArg "rs" x
+    pure (v, none)
+
+/-- MOSFET Rectifier `rs`: as PMux, with an explicit number test for the scalar form -/
+def mkRsRect (rsA : PV α) : Except Err (α × Option (List α)) :=
+  match rsA with
+  | .list l =>
+    if l.all PV.isNumber then pure ((0 : α), some (l.filterMap PV.num?))
+    else throw (.value "rs values must be numbers!")
+  | x =>
+    if !x.isNumber then throw (.value "rs values must be numbers!")
+    else do
+      let v ← numArg "rs" x
+      pure (v, none)
+
+/-- LinReg: which argument carries the ground current (`iq` is the deprecated spelling; a dict given as
+    `iq` has its `"iq"` entry renamed to `"ig"`, `KeyError` when there is none) -/
+def linregIgc (a : Args α) : Except Err (PV α) :=
+  let iqA := arg a "iq" (.float 0)
+  if nonZeroArg iqA then
+    match iqA with
+    | .dict d =>
+      match d.lookup "iq" with
+      | some z => pure (.dict ((d.filter fun kv => kv.1 != "iq") ++ [("ig", z)]))
+      | none => throw (.key "iq")
+    | x => pure x
+  else pure (arg a "ig" (.float 0))
+
 /-- `Kind(name, **args)` -/
 def mkComp (kind : Kind) (name : String) (a : Args α) : Except Err (Comp α) := do
   let zero : PV α := .float 0
   let limArg := arg a "limits" .null
   match kind with
   | .source =>
-    let vo ← match a.lookup "vo" with | some x => pure x | none => throw (.type "missing vo")
+    let vo ← req a "vo"
     let rs ← absArg "rs" (arg a "rs" zero)
     let lim ← checkLimits limArg
     let vov ← numArg "vo" vo
     pure { name, kind, vo := vov, rs, par := .const 0, limits := lim,
            params := [("name", .str name), ("vo", vo), ("rs", .float rs), ("rt", .float 0)] }
   | .pload =>
-    let pwrA ← match a.lookup "pwr" with | some x => pure x | none => throw (.type "missing pwr")
+    let pwrA ← req a "pwr"
     let pwr ← absArg "pwr" pwrA
     let pwrs ← absArg "pwrs" (arg a "pwrs" zero)
     let rt ← absArg "rt" (arg a "rt" zero)
     let lim ← checkLimits limArg
     let loss := arg a "loss" (.bool false)
-    pure { name, kind, pwr, pwrs, rt, par := .const 0, limits := lim,
-           loss := (match loss with | .bool b => b | x => (x.num?.map fun v => !isZ v).getD true),
+    pure { name, kind, pwr, pwrs, rt, par := .const 0, limits := lim, loss := truthy loss,
            params := [("name", .str name), ("pwr", .float pwr), ("pwrs", .float pwrs),
                       ("rt", .float rt), ("loss", loss)] }
   | .iload =>
-    let iiA ← match a.lookup "ii" with | some x => pure x | none => throw (.type "missing ii")
+    let iiA ← req a "ii"
     let ii ← absArg "ii" iiA
     let lim ← checkLimits limArg
     let iis ← absArg "iis" (arg a "iis" zero)
     let rt ← absArg "rt" (arg a "rt" zero)
     let loss := arg a "loss" (.bool false)
-    pure { name, kind, ii, iis, rt, par := .const 0, limits := lim,
-           loss := (match loss with | .bool b => b | x => (x.num?.map fun v => !isZ v).getD true),
+    pure { name, kind, ii, iis, rt, par := .const 0, limits := lim, loss := truthy loss,
            params := [("name", .str name), ("ii", .float ii), ("iis", .float iis),
                       ("rt", .float rt), ("loss", loss)] }
   | .rload =>
-    let rsA ← match a.lookup "rs" with | some x => pure x | none => throw (.type "missing rs")
+    let rsA ← req a "rs"
     let rs ← absArg "rs" rsA
     if isZ rs then throw (.value "rs must be > 0!")
-    let rt ← absArg "rt" (arg a "rt" zero)
-    let lim ← checkLimits limArg
-    let loss := arg a "loss" (.bool false)
-    pure { name, kind, rs, rt, par := .const 0, limits := lim,
-           loss := (match loss with | .bool b => b | x => (x.num?.map fun v => !isZ v).getD true),
-           params := [("name", .str name), ("rs", .float rs), ("rt", .float rt), ("loss", loss)] }
+    else do
+      let rt ← absArg "rt" (arg a "rt" zero)
+      let lim ← checkLimits limArg
+      let loss := arg a "loss" (.bool false)
+      pure { name, kind, rs, rt, par := .const 0, limits := lim, loss := truthy loss,
+             params := [("name", .str name), ("rs", .float rs), ("rt", .float rt), ("loss", loss)] }
   | .rloss =>
-    let rsA ← match a.lookup "rs" with | some x => pure x | none => throw (.type "missing rs")
+    let rsA ← req a "rs"
     let rs ← absArg "rs" rsA
     let rt ← absArg "rt" (arg a "rt" zero)
     let lim ← checkLimits limArg
     pure { name, kind, rs, rt, par := .const 0, limits := lim,
            params := [("name", .str name), ("rs", .float rs), ("rt", .float rt)] }
   | .vloss =>
-    let vd ← match a.lookup "vdrop" with | some x => pure x | none => throw (.type "missing vdrop")
+    let vd ← req a "vdrop"
     let rt ← absArg "rt" (arg a "rt" zero)
-    let (par, stored) ← match vd with
-      | .dict d => do let (p, _) ← mkTable d "vdrop"; pure (p, stripDiag vd)
-      | x => do let v ← absArg "vdrop" x; pure (Param.const v, PV.float v)
+    let ps ← mkVdrop vd
     let lim ← checkLimits limArg
-    pure { name, kind, rt, par, limits := lim,
-           params := [("name", .str name), ("rt", .float rt), ("vdrop", stored)] }
+    pure { name, kind, rt, par := ps.1, limits := lim,
+           params := [("name", .str name), ("rt", .float rt), ("vdrop", ps.2)] }
   | .converter =>
-    let vo ← match a.lookup "vo" with | some x => pure x | none => throw (.type "missing vo")
-    let eff ← match a.lookup "eff" with | some x => pure x | none => throw (.type "missing eff")
-    let par ← match eff with
-      | .dict d => do
-        let (p, _) ← mkTable d "eff" chkEff
-        pure p
-      | x => do
-        let e ← numArg "eff" x
-        if !(0 < e) then throw (.value "Efficiency must be > 0.0")
-        if 1 < e then throw (.value "Efficiency must be <= 1.0")
-        pure (Param.const e)
+    let vo ← req a "vo"
+    let eff ← req a "eff"
+    let par ← mkEff eff
     let iq ← absArg "iq" (arg a "iq" zero)
     let iis ← absArg "iis" (arg a "iis" zero)
     let rt ← absArg "rt" (arg a "rt" zero)
@@ -236,30 +313,19 @@ def mkComp (kind : Kind) (name : String) (a : Args α) : Except Err (Comp α) :=
            params := [("name", .str name), ("vo", vo), ("eff", stripDiag eff), ("iq", .float iq),
                       ("iis", .float iis), ("rt", .float rt)] }
   | .linreg =>
-    let vo ← match a.lookup "vo" with | some x => pure x | none => throw (.type "missing vo")
+    let vo ← req a "vo"
     let vov ← numArg "vo" vo
     let vdrop ← absArg "vdrop" (arg a "vdrop" zero)
     if !(vdrop < nabs vov) then throw (.value "Voltage drop must be < vo")
-    let iqA := arg a "iq" zero
-    -- `if iq != 0.0:` — a dict is != 0.0
-    let iqSet := match iqA with | .dict _ => true | x => (x.num?.map fun v => !isZ v).getD true
-    let igc : PV α := if iqSet then
-        (match iqA with
-         | .dict d => .dict ((d.filter fun kv => kv.1 != "iq") ++
-                             (match d.lookup "iq" with | some z => [("ig", z)] | none => []))
-         | x => x)
-      else arg a "ig" zero
-    -- `igc["ig"] = igc.pop("iq")`
-    match iqA with
-      | .dict d => if iqSet && (d.lookup "iq").isNone then throw (.key "iq")
-      | _ => pure ()
-    let par ← mkIg igc
-    let iis ← absArg "iis" (arg a "iis" zero)
-    let rt ← absArg "rt" (arg a "rt" zero)
-    let lim ← checkLimits limArg
-    pure { name, kind, vo := vov, vdrop, par, iis, rt, limits := lim,
-           params := [("name", .str name), ("vo", vo), ("vdrop", .float vdrop), ("ig", stripDiag igc),
-                      ("iis", .float iis), ("rt", .float rt)] }
+    else do
+      let igc ← linregIgc a
+      let par ← mkIg igc
+      let iis ← absArg "iis" (arg a "iis" zero)
+      let rt ← absArg "rt" (arg a "rt" zero)
+      let lim ← checkLimits limArg
+      pure { name, kind, vo := vov, vdrop, par, iis, rt, limits := lim,
+             params := [("name", .str name), ("vo", vo), ("vdrop", .float vdrop), ("ig", stripDiag igc),
+                        ("iis", .float iis), ("rt", .float rt)] }
   | .pswitch =>
     let rs ← absArg "rs" (arg a "rs" zero)
     let ig := arg a "ig" zero
@@ -272,47 +338,33 @@ def mkComp (kind : Kind) (name : String) (a : Args α) : Except Err (Comp α) :=
                       ("iis", .float iis), ("rt", .float rt)] }
   | .pmux =>
     let rsA := arg a "rs" zero
-    -- `if not list: _params["rs"] = abs(rs)  elif not all numbers: raise`, then `_params["rs"] = rs`
-    let (rs, rsList) ← match rsA with
-      | .list l =>
-        if l.all PV.isNumber then pure ((0 : α), some (l.filterMap PV.num?))
-        else throw (.value "rs values must be numbers!")
-      | x => do let _ ← absArg "rs" x; let v ← numArg "rs" x; pure (v, none)
+    let rr ← mkRsMux rsA
     let ig := arg a "ig" zero
     let par ← mkIg ig
     let iis ← absArg "iis" (arg a "iis" zero)
     let rt ← absArg "rt" (arg a "rt" zero)
     let lim ← checkLimits limArg
-    pure { name, kind, rs, rsList, par, iis, rt, limits := lim,
+    pure { name, kind, rs := rr.1, rsList := rr.2, par, iis, rt, limits := lim,
            params := [("name", .str name), ("rs", rsA), ("ig", stripDiag ig),
                       ("iis", .float iis), ("rt", .float rt)] }
   | .rectifier =>
     let vd := arg a "vdrop" zero
-    let isDiode := match vd with | .dict _ => true | x => (x.num?.map fun v => !isZ v).getD true
-    if isDiode then
-      let (par, stored) ← match vd with
-        | .dict d => do let (p, _) ← mkTable d "vdrop"; pure (p, stripDiag vd)
-        | x => do let v ← absArg "vdrop" x; pure (Param.const v, PV.float v)
+    if nonZeroArg vd then do
+      let ps ← mkVdrop vd
       let rt ← absArg "rt" (arg a "rt" zero)     -- "common params" come last in the Python
       let lim ← checkLimits limArg
-      pure { name, kind, par, rt, diode := true, limits := lim,
-             params := [("name", .str name), ("type", .str "diode"), ("vdrop", stored),
+      pure { name, kind, par := ps.1, rt, diode := true, limits := lim,
+             params := [("name", .str name), ("type", .str "diode"), ("vdrop", ps.2),
                         ("rt", .float rt)] }
-    else
+    else do
       let rsA := arg a "rs" zero
-      let (rs, rsList) ← match rsA with
-        | .list l =>
-          if l.all PV.isNumber then pure ((0 : α), some (l.filterMap PV.num?))
-          else throw (.value "rs values must be numbers!")
-        | x =>
-          if !x.isNumber then throw (.value "rs values must be numbers!")
-          else do let v ← numArg "rs" x; pure (v, none)
+      let rr ← mkRsRect rsA
       let ig := arg a "ig" zero
       let par ← mkIg ig
       let iq ← absArg "iq" (arg a "iq" zero)
       let rt ← absArg "rt" (arg a "rt" zero)
       let lim ← checkLimits limArg
-      pure { name, kind, rs, rsList, par, iq, rt, diode := false, limits := lim,
+      pure { name, kind, rs := rr.1, rsList := rr.2, par, iq, rt, diode := false, limits := lim,
              params := [("name", .str name), ("type", .str "mosfet"), ("rs", rsA),
                         ("ig", stripDiag ig), ("iq", .float iq), ("rt", .float rt)] }
 
